@@ -33,11 +33,11 @@ Fixpoint from (l : boxes) (b : bid) : boxes :=          (* suffix starting at bo
   match l with [] => [] | p :: tl => if fst p =? b then l else from tl b end.
 Definition after (l : boxes) (b : bid) : boxes := tl (from l b).
 Definition head_ref (l : boxes) : ref := match l with [] => Root | p :: _ => B (fst p) end.
-Definition livb (l : boxes) (b : bid) : bool := existsb (fun p => fst p =? b) l.
+Definition livb (l : boxes) (b : bid) : bool := existsb (fun p : bid * elt => fst p =? b) l.
 Definition succ_ref (l : boxes) (b : bid) : ref := head_ref (after l b).      (* b.next of a live box *)
 Definition pred_ref (l : boxes) (b : bid) : ref := succ_ref (rev l) b.        (* b.prev of a live box *)
 Definition last_ref (l : boxes) : ref := head_ref (rev l).                    (* root.prev *)
-Definition rm_box (b : bid) (l : boxes) : boxes := filter (fun p => negb (fst p =? b)) l.
+Definition rm_box (b : bid) (l : boxes) : boxes := filter (fun p : bid * elt => negb (fst p =? b)) l.
 Fixpoint val_of (l : boxes) (b : bid) : option elt :=
   match l with [] => None | p :: tl => if fst p =? b then Some (snd p) else val_of tl b end.
 Fixpoint find_box (l : boxes) (x : elt) : option bid :=   (* _value_ids_to_boxes lookup *)
@@ -155,6 +155,32 @@ Definition apply_edit (e : edit) (s : st) : st * res unit :=
       end
   end.
 
+(* ---------- the plain-list specification of the edits (what "the current sequence" must be) *)
+Definition l_remove (x : elt) (l : list elt) : list elt := filter (fun y => negb (y =? x)) l.
+Fixpoint l_ins_after (a x : elt) (l : list elt) : list elt :=
+  match l with [] => [] | y :: t => if y =? a then y :: x :: t else y :: l_ins_after a x t end.
+Definition l_ins_at (p : option elt) (x : elt) (l : list elt) : list elt :=
+  match p with None => x :: l | Some a => l_ins_after a x l end.
+(* insert x right after p (None = at the front): inserting an element after itself is a no-op, an
+   element already present is moved *)
+Definition l_one (p : option elt) (x : elt) (l : list elt) : list elt * option elt :=
+  if option_eqb Nat.eqb p (Some x) then (l, p) else (l_ins_at p x (l_remove x l), Some x).
+Fixpoint l_many (p : option elt) (xs : list elt) (l : list elt) : list elt :=
+  match xs with [] => l | x :: t => let '(l', p') := l_one p x l in l_many p' t l' end.
+Definition l_last (l : list elt) : option elt := match rev l with [] => None | y :: _ => Some y end.
+Fixpoint l_pred (a : elt) (prev : option elt) (l : list elt) : option elt :=
+  match l with [] => None | y :: t => if y =? a then prev else l_pred a (Some y) t end.
+Definition l_append (x : elt) (l : list elt) : list elt := fst (l_one (l_last l) x l).
+Definition l_mem (x : elt) (l : list elt) : bool := existsb (Nat.eqb x) l.
+Definition l_apply (e : edit) (l : list elt) : list elt * res unit :=
+  match e with
+  | Append x => (l_append x l, Ok tt)
+  | Extend xs => (fold_left (fun l x => l_append x l) xs l, Ok tt)
+  | Remove x => if l_mem x l then (l_remove x l, Ok tt) else (l, Raise ValueError)
+  | InsAfter a xs => if l_mem a l then (l_many (Some a) xs l, Ok tt) else (l, Raise ValueError)
+  | InsBefore a xs => if l_mem a l then (l_many (l_pred a None l) xs l, Ok tt) else (l, Raise ValueError)
+  end.
+
 (* ---------- read-only API, written as the code does it (through iterators) *)
 Definition step (fwd : bool) (s : st) (c : cursor) := cstep (view fwd s) c.
 Definition list_of (fwd : bool) (s : st) : option (list elt) :=
@@ -219,19 +245,60 @@ Definition obs_eqb (a b : obs) : bool :=
   let '(r2, f2, b2, n2) := b in
   res_eqb (option_eqb Nat.eqb) r1 r2 && lst_eqb f1 f2 && lst_eqb b1 b2 && (n1 =? n2).
 
-Fixpoint agree_from (m : mstate) (tr : list (ev * obs)) : bool :=
+Fixpoint agree_from (m : mstate) (tr : list (ev * option obs)) : bool :=
   match tr with
   | [] => true
   | (e, o) :: rest =>
       let '(m', r) := run_ev m e in
-      match obs_of m' r with
-      | Some o' => obs_eqb o' o && agree_from m' rest
-      | None => false
+      match o with
+      | None => agree_from m' rest               (* intermediate step of a composite Graph-level call *)
+      | Some o =>
+          match obs_of m' r with
+          | Some o' => obs_eqb o' o && agree_from m' rest
+          | None => false
+          end
       end
   end.
 (* a case: initial values (DoublyLinkedSet(values) = extend on the empty set) and the observed trace *)
-Definition agree (c : list elt * list (ev * obs)) : bool :=
+Definition agree (c : list elt * list (ev * option obs)) : bool :=
   agree_from (extend (fst c) empty, []) (snd c).
+
+(* exhaustive small scopes: a tree of schedules sharing prefixes; every edge carries the observation.
+   Result: path (child indices, 1-based) to the first disagreeing edge, [] when all edges agree. *)
+Inductive tcase := T (kids : list (ev * obs * tcase)).
+Fixpoint first_fail (m : mstate) (t : tcase) : list nat :=
+  match t with
+  | T kids =>
+      (fix go (ks : list (ev * obs * tcase)) (i : nat) : list nat :=
+         match ks with
+         | [] => []
+         | (e, o, sub) :: rest =>
+             let '(m', r) := run_ev m e in
+             match obs_of m' r with
+             | Some o' =>
+                 if obs_eqb o' o then
+                   match first_fail m' sub with
+                   | [] => go rest (S i)
+                   | p => i :: p
+                   end
+                 else [i]
+             | None => [i]
+             end
+         end) kids 1
+  end.
+Definition tree_fail (init : list elt) (cursors : list bool) (t : tcase) : list nat :=
+  first_fail (extend init empty, map (fun f => (f, Fresh)) cursors) t.
+
+(* monomorphic constructors for the generated case files (keeps elaboration of big literals fast) *)
+Definition RN : res (option elt) := Ok None.
+Definition RY (x : elt) : res (option elt) := Ok (Some x).
+Definition RE (e : exn) : res (option elt) := Raise e.
+Definition OB (r : res (option elt)) (f b : list elt) (n : nat) : obs := (r, f, b, n).
+Definition SO (r : res (option elt)) (f b : list elt) (n : nat) : option obs := Some (r, f, b, n).
+Definition NO : option obs := None.
+Definition EV (e : ev) (o : option obs) : ev * option obs := (e, o).
+Definition CASE (init : list elt) (tr : list (ev * option obs)) : list elt * list (ev * option obs) := (init, tr).
+Definition TE (e : ev) (o : obs) (t : tcase) : ev * obs * tcase := (e, o, t).
 
 (* ---------- single-cursor schedules (the objects of the cursor theorems) *)
 Inductive sev := SStep | SEdit (e : edit).
